@@ -1,4 +1,8 @@
 import Mistletoe.Model.Basic
+import Mistletoe.Model.Chars
 import Mistletoe.Model.Span
+import Mistletoe.Model.Lines
 import Mistletoe.Proofs.Span
+import Mistletoe.Proofs.Lines
+import Mistletoe.Props.C15
 import Mistletoe.Props.C16
